@@ -118,7 +118,6 @@ def malformed(ctx):
     # contains_jsonb on buffers that are NOT valid encodings: C12 says nothing about them, the offset-faithful model
     # (ContainWalk.v) does -- value, swallowed error (false) or panic; this stream only feeds the correspondence tie
     r = ctx.rng
-    ctx.open_classes.add('skipped-allocation')
     small = [(a, b) for a, b, cid in ctx.pairs if not isinstance(cid, tuple) and 8 <= len(gen.enc(a)) <= 90 and len(gen.enc(b)) <= 90]
     for a, b in r.sample(small, min(len(small), ctx.scale(160, 4000))):
         ea, eb = gen.enc(a), gen.enc(b)
@@ -128,13 +127,6 @@ def malformed(ctx):
             ctx.add('contains %s %s' % (gen.hexarg(ea), gen.hexarg(m)), kind='malformed')
         for _ in range(4):
             ctx.add('contains %s %s' % (gen.hexarg(r.choice(mutants(ctx, ea, 6))), gen.hexarg(r.choice(mutants(ctx, eb, 6)))), kind='malformed')
-
-
-def classify(ctx, c, io, mo):
-    # the harness process died on a corrupt buffer (allocation driven by a corrupted count): not judged
-    if c.kind == 'malformed' and io.startswith('abort:'):
-        return 'skipped-allocation'
-    return None
 
 
 def judge(ctx):
